@@ -179,7 +179,7 @@ func (x *exec) begin(id, input string) {
 }
 
 func newExec(c *vp.Child) *exec {
-	x := &exec{c: c, caseWall: 120 * time.Second}
+	x := &exec{c: c, caseWall: 45 * time.Second}
 	_, x.variant = baseStage(c.Stage)
 	x.scratch = filepath.Join(c.WorkDir, "scratch")
 	os.MkdirAll(x.scratch, 0o755)
